@@ -36,6 +36,7 @@ type JobRun struct {
 	seenPoint      map[string]int
 	delivered      [][]string // batches that reached the sink in this run (canonical ids)
 	toTransform    [][]string
+	curJob         string   // C17: the job of the tick in progress
 	carryIn        []string // C10: what a run killed inside a batch passed to the transform / the sink
 	carryOut       []string
 	crashDirs      []string
@@ -779,6 +780,7 @@ type c17State struct {
 	cur       *runRec
 	fails     map[string]int // remaining failures per entity (-1 = permanent)
 	reportsAt int            // index into the observed logs consumed so far
+	killed    bool           // the job was killed during its first run
 }
 
 func (r *JobRun) installC17(spec map[string]any, st *c17State) {
@@ -812,6 +814,14 @@ func (r *JobRun) installC17(spec map[string]any, st *c17State) {
 			}
 			st.cur.attempts++
 			ids := entIDs(r.H, subject)
+			if k := intOf(spec, "killAtSink"); k > 0 && len(st.runs) == 1 && st.cur.attempts == k && !st.killed {
+				// an operator kills the job while its first run is delivering
+				st.killed = true
+				r.Stats["fault_kill"]++
+				r.recMu.Unlock()
+				r.H.Full.Sched.KillJob(fmt.Sprint(r.curJob))
+				r.recMu.Lock()
+			}
 			if failAll {
 				r.Stats["fault_sink_error"]++
 				return errSinkInjected
@@ -896,6 +906,7 @@ func (r *JobRun) tickOp(op *Op, i int) *Violation {
 	if r.H.Logs != nil {
 		st.reportsAt = r.H.Logs.Len()
 	}
+	r.curJob = id
 	r.installC17(spec, st)
 	defer r.clearFaults()
 	if op.N >= 2 {
@@ -962,6 +973,17 @@ func (r *JobRun) tickOp(op *Op, i int) *Violation {
 	reports := r.handlerReports(st)
 	cell := fmt.Sprintf("n=%d batch=%v maxItems=%d rejected=%v times=%d %s", len(given), cfg["batchSize"], maxItems, shortAll(keysOfInt(st.fails)), intOf(spec, "rejectTimes"), jobType)
 	r.ev("tick cell[%s] runs=%d rejects=%v reports=%d", cell, len(st.runs), shortAll(first.singleReject), len(reports))
+	if st.killed {
+		// a killed run (like a successful one) is not run again by the reRun handler, whatever its budget
+		r.Stats["kill_with_rerun_handler_checks"]++
+		if n := len(st.runs) - 1; n > 0 {
+			return viol("C17", "rerun", "rerun-after-kill", "cell %s: the job was killed during its first run (nothing was rejected); the reRun handler (maxRetries=%d, delay %ds) ran it again %d time(s)", cell, maxRetries, retryDelay, n)
+		}
+		if jobType != "fullsync" {
+			r.consumed[id] = len(d.Versions)
+		}
+		return nil
+	}
 	if hasLog && intOf(spec, "sinkFailAlways") == 0 {
 		// (a) every single-entity rejection is reported exactly once, nothing else is reported
 		var allRej []string
